@@ -1,5 +1,5 @@
 """C14 — coroutine Mutex: mutual exclusion and no lost wake-up (structural clauses; K20, K20n, all four options)."""
-from rules import lib_core, lib_coro, lib_exec, lib_order, lib_shape
+from rules import lib_core, lib_coro, lib_exec, lib_order, lib_shape, lib_guard
 from vlib import pathwalk
 
 SENDER = 'yaclib::detail::MutexImpl::_sender'
@@ -86,7 +86,13 @@ def run(ctx):
                    'over list segments, all lengths)', minimum=4)
     rcf = ctx.rule('R-CASFRESH', 'every retry of a compare-exchange re-tests the refreshed expected value against the '
                    'sentinels the first attempt tested', minimum=0)
+    rgs = ctx.rule('R-GUARDSTATE', 'every GuardState member function follows its row of the ownership table '
+                   '(summaries evaluated on {null,P,Q} x {owns, not})', minimum=8)
+    rgc = ctx.rule('R-GUARDCALLS', 'Guard<M,Shared>: mode of every call into the mutex, state transition before the '
+                   'call, TryLock resets on failure, Release never unlocks', minimum=8)
     for cfg, fb in sorted(fbs.items()):
+        lib_guard.check_guard_state(ctx, fb, rgs)
+        lib_guard.check_guard_calls(ctx, fb, rgc)
         lib_order.check_cas_fresh(ctx, fb, rcf, lambda f: 'MutexImpl' in f.qn)
         lib_shape.check(ctx, fb, rsh, lambda qn: 'MutexImpl' in qn, 4)
         lib_order.check(ctx, fb, cfg, [SENDER], rw, ro, rc)
